@@ -60,7 +60,7 @@ func c11() {
 		if i%3 == 2 {
 			pol = longSpec
 		}
-		cc := &vlib.ChildCase{Policy: pol, Flags: pl.flags, NNP: pl.nnp, Unprivileged: pl.unpriv, Probes: []vlib.Probe{probe}, NNPCase: &vlib.NNPCase{Mode: pl.mode, GoMaxProcs: []int{0, 1, 2, 4}[i%4], CallerLocked: i%5 == 4}}
+		cc := &vlib.ChildCase{Policy: pol, Flags: pl.flags, NNP: pl.nnp, Unprivileged: pl.unpriv, Probes: []vlib.Probe{probe}, NNPCase: &vlib.NNPCase{Mode: pl.mode, GoMaxProcs: []int{0, 1, 2, 4}[i%4], CallerLocked: i%5 == 4, PresetOnMain: i%7 == 5}}
 		desc := fmt.Sprintf("case %d: mode=%s unprivileged=%v NoNewPrivs=%v flags=%#x strace=%v", i, pl.mode, pl.unpriv, pl.nnp, pl.flags, pl.strace)
 		res, err := vlib.RunChild(bin, "nnp", cc, pl.strace, 60*time.Second)
 		if err != nil || res.TimedOut || res.Line("done") == nil {
@@ -121,6 +121,29 @@ func c11() {
 			}
 			run.Count("strace_logs_judged", 1)
 		}
+		preset := i%7 == 5
+		if preset {
+			run.Count("children_with_nnp_preset_on_main_thread", 1)
+			// the main thread's own prctl is not the library's: drop it from the strace view
+			mainTid := int(jsonU64(l["main_tid"]))
+			prctlSeen, prctlBeforeSeccomp = false, false
+			seccompSeen = false
+			for _, sc := range res.Strace {
+				switch {
+				case sc.Name == "prctl" && len(sc.Args) > 1 && sc.Args[0] == 38 && sc.Tid != mainTid:
+					if !prctlSeen {
+						prctlTid = sc.Tid
+					}
+					prctlSeen = true
+				case sc.Name == "seccomp" && len(sc.Args) > 0 && sc.Args[0] == 1:
+					if !seccompSeen {
+						seccompTid = sc.Tid
+						prctlBeforeSeccomp = prctlSeen
+					}
+					seccompSeen = true
+				}
+			}
+		}
 		if pl.nnp {
 			if pl.strace {
 				if seccompSeen && !prctlBeforeSeccomp {
@@ -151,6 +174,16 @@ func c11() {
 					}
 				}
 			}
+			// state-based: the thread that installed the filter carries the bit afterwards
+			if ins, _ := l["installs"].([]any); ok && len(ins) > 0 {
+				m, _ := ins[0].(map[string]any)
+				itid := fmt.Sprint(jsonU64(m["tid"]))
+				if am, _ := after[itid].(map[string]any); am != nil && fmt.Sprint(am["Exiting"]) != "1" && fmt.Sprint(am["NoNewPrivs"]) != "1" {
+					run.Violation("installing-thread-without-nnp", fmt.Sprintf("%s: NoNewPrivs requested and the load returned nil, but the installing thread %s has NoNewPrivs=%v", desc, itid, am["NoNewPrivs"]), replay)
+					return
+				}
+				run.Count("installing_thread_state_checked", 1)
+			}
 			if !ok {
 				sig := "load-fails-with-nnp-requested"
 				if pl.unpriv {
@@ -170,6 +203,9 @@ func c11() {
 			for tid, v := range after {
 				m, _ := v.(map[string]any)
 				bm, _ := before[tid].(map[string]any)
+				if preset && tid != fmt.Sprint(l["tid_before"]) {
+					continue // the main thread set the bit itself and new threads inherit it from their creator: only the loading thread is judged
+				}
 				if bm != nil && fmt.Sprint(m["NoNewPrivs"]) != fmt.Sprint(bm["NoNewPrivs"]) {
 					run.Violation("nnp-bit-changed-although-not-requested", fmt.Sprintf("%s: NoNewPrivs of task %s changed %v -> %v", desc, tid, bm["NoNewPrivs"], m["NoNewPrivs"]), replay)
 					return
